@@ -1,4 +1,5 @@
 import PasslibVerif.Props.C01
+import PasslibVerif.Model.VerifyCrypt
 import PasslibVerif.Props.C02
 import PasslibVerif.Lemmas.FormatsMd5Sha2
 /-
@@ -8,7 +9,7 @@ every secret against the hash made from it — every secret `hash` accepts, ever
 size, every admissible rounds value.
 -/
 namespace Props.C01Crypt
-open Py Model.Handler Model.Formats Model.Verify Model.ShaCrypt Lemmas.Formats Props.C01
+open Py Model.Handler Model.Formats Model.Verify Model.ShaCrypt Model.VerifyCrypt Lemmas.Formats Props.C01
 
 theorem h64_eq_itoa64 : h64 = Spec.ShaCrypt.itoa64 := by decide
 
@@ -56,15 +57,6 @@ theorem encode512_ok (r : Nat → Nat) : allIn h64 (Spec.ShaCrypt.encode512 r) =
 
 /-! ### md5_crypt / apr_md5_crypt -/
 
-def md5Ident (apr : Bool) : Str := if apr then ofString "$apr1$" else ofString "$1$"
-
-/-- the hasher as passlib assembles it: C07's parser/renderer + C02's pure-Python checksum code -/
-def md5Hasher (apr : Bool) : Hasher where
-  parse := fun s => toRes (md5Parse (md5Ident apr) s)
-  render := md5Render
-  digest := fun b p => rawMd5 Spec.MD5.md5 apr b (p.salt.getD [])
-  rejectsNul := true
-
 theorem md5_roundtrips (apr : Bool) (salt : Str) (hs : allIn h64 salt = true) (hl : salt.length ≤ 8) :
     RoundTrips (md5Hasher apr) { ident := md5Ident apr, salt := some salt } := by
   intro b c hc
@@ -95,22 +87,6 @@ theorem md5_crypt_hash_succeeds (apr : Bool) (s : Secret) (b : Bytes) (salt : St
   exact ⟨_, rfl⟩
 
 /-! ### sha256_crypt / sha512_crypt -/
-
-def sha256Hasher : Hasher where
-  parse := fun s => toRes (sha2Parse (ofString "$5$") 43 s)
-  render := sha2Render
-  digest := fun b p => rawSha256 Spec.SHA256.sha256 b (p.salt.getD []) (p.rounds.getD 0).toNat
-  rejectsNul := true
-
-def sha512Hasher : Hasher where
-  parse := fun s => toRes (sha2Parse (ofString "$6$") 86 s)
-  render := sha2Render
-  digest := fun b p => rawSha512 Spec.SHA512.sha512 b (p.salt.getD []) (p.rounds.getD 0).toNat
-  rejectsNul := true
-
-/-- settings as `hash` builds them: explicit `rounds=` unless the cost is 5000 -/
-def sha2Settings (ident salt : Str) (rounds : Nat) : Parsed :=
-  { ident := ident, rounds := some (rounds : Int), salt := some salt, extra := implicitFlag (rounds == 5000) }
 
 theorem sha256_roundtrips (salt : Str) (rounds : Nat) (hs : allIn h64 salt = true) (hl : salt.length ≤ 16)
     (hr : 1000 ≤ rounds ∧ rounds ≤ 999999999) : RoundTrips sha256Hasher (sha2Settings (ofString "$5$") salt rounds) := by
